@@ -742,7 +742,7 @@ var prop = &hx.Prop{
 	ID: "C11", Gen: gen, Decode: decode, Focus: focus, Exec: exec, Shrink: shrink,
 	Components: map[string]string{
 		"interpreter (parser, nodes, contexts, superglobal nodes), std/net/http Server/Handler/middleware/onError/Request/Response": "real (instrumented copy of /repo)",
-		"Go net/http ServeMux":                            "real",
+		"Go net/http ServeMux": "real",
 		"annotation controllers (#[Controller]/#[GetMapping]/#[Middleware] classes in an application directory mounted with $server->boot())": "real: std/net/annotation, mount_routes.go, route_dispatch.go; the application's files are real files in the scratch tree",
 		"TCP listener, http.Server, connections":          "simulated: each client is a task calling ServeMux.ServeHTTP with an in-memory request and a SimConn",
 		"goroutine scheduling between in-flight requests": "simulated (seeded scheduler, statement-granular preemption, script-level gates)",
